@@ -195,4 +195,84 @@ theorem limit_chunk_invariant {ρ : Type} (limit offset : Nat) (cs : List (List 
 example : limitStream 3 2 [[1, 2, 3], [], [4], [5, 6, 7], [8]] = [3, 4, 5] := by decide
 example : limitAll 3 2 [1, 2, 3, 4, 5, 6, 7, 8] = [3, 4, 5] := by decide
 
+/-! ## fill -/
+
+/-- **fill_chunk_invariant.** For every fill mode (null, number, previous), every width, every
+stream of non-empty chunks of bucket rows: the fill operator — current group, next bucket and
+last emitted values carried across chunks, group closed at a chunk end unless the look-ahead
+`isSameTag` says it goes on — emits exactly what the one-shot fill of all rows emits. -/
+theorem fill_chunk_invariant {γ : Type} [DecidableEq γ] (m : FillMode) (width last : Nat)
+    (cs : List (List (BRow γ))) (hne : ∀ c ∈ cs, c ≠ []) :
+    fillStream m width last cs = fillAll m width last cs.flatten := by
+  unfold fillStream fillAll
+  rw [fillStreamGo_eq m width last cs hne none]
+  rfl
+
+/-- non-vacuity: a group cut in the middle of a gap, previous values across the cut, a group
+that ends exactly at a chunk end. -/
+example :
+    fillStream FillMode.previous 2 4
+        [[⟨1, 1, [some 5, none]⟩], [⟨1, 3, [none, some 2]⟩, ⟨2, 0, [some 1, some 1]⟩], [⟨3, 4, [none, none]⟩]]
+      = fillAll FillMode.previous 2 4
+        [⟨1, 1, [some 5, none]⟩, ⟨1, 3, [none, some 2]⟩, ⟨2, 0, [some 1, some 1]⟩, (⟨3, 4, [none, none]⟩ : BRow Nat)] := by
+  decide
+
+example :
+    (fillAll FillMode.previous 2 2 [(⟨1, 1, [some 5, none]⟩ : BRow Nat)])
+      = [⟨1, 0, [none, none]⟩, ⟨1, 1, [some 5, none]⟩, ⟨1, 2, [some 5, none]⟩] := by decide
+
+/-! ## k-way ordered merge -/
+
+/-- **merge_perm.** The merge loses and invents nothing: for any number of inputs and any cut
+of every input into chunks (empty chunks and empty inputs included) its output is a permutation
+of all rows. -/
+theorem merge_perm {ρ : Type} (le : ρ → ρ → Bool) (htot : ∀ a b, le a b = true ∨ le b a = true)
+    (htrans : ∀ a b c, le a b = true → le b c = true → le a c = true)
+    (ins : List (List (List ρ))) :
+    (mergeStream le ins).Perm (allRows ins) :=
+  mergeGo_perm le htot htrans _ ins (by omega)
+
+/-- **merge_sorted.** If every input is sorted, so is the output. -/
+theorem merge_sorted {ρ : Type} (le : ρ → ρ → Bool) (htot : ∀ a b, le a b = true ∨ le b a = true)
+    (htrans : ∀ a b c, le a b = true → le b c = true → le a c = true)
+    (ins : List (List (List ρ)))
+    (hs : ∀ i ∈ ins, i.flatten.Pairwise (fun x y => le x y = true)) :
+    (mergeStream le ins).Pairwise (fun x y => le x y = true) :=
+  mergeGo_sorted le htot htrans _ ins (by omega) hs
+
+/-- **merge_chunk_invariant.** With an order that tells any two different rows apart
+(antisymmetric), the output of the merge depends on the rows only: two sets of sorted inputs
+with the same rows — other chunk boundaries, another number of inputs, the rows spread over the
+inputs differently — give the same output. -/
+theorem merge_chunk_invariant {ρ : Type} (le : ρ → ρ → Bool)
+    (htot : ∀ a b, le a b = true ∨ le b a = true)
+    (htrans : ∀ a b c, le a b = true → le b c = true → le a c = true)
+    (hanti : ∀ a b, le a b = true → le b a = true → a = b)
+    (ins ins' : List (List (List ρ)))
+    (hs : ∀ i ∈ ins, i.flatten.Pairwise (fun x y => le x y = true))
+    (hs' : ∀ i ∈ ins', i.flatten.Pairwise (fun x y => le x y = true))
+    (hrows : (allRows ins).Perm (allRows ins')) :
+    mergeStream le ins = mergeStream le ins' := by
+  apply List.Perm.eq_of_pairwise (le := fun x y => le x y = true)
+  · intro a b _ _ h1 h2; exact hanti a b h1 h2
+  · exact merge_sorted le htot htrans ins hs
+  · exact merge_sorted le htot htrans ins' hs'
+  · exact (merge_perm le htot htrans ins).trans (hrows.trans (merge_perm le htot htrans ins').symm)
+
+/-- when the order does not tell two rows apart (equal timestamps of different series, no
+further sort column) their order in the output is not determined by the rows: the finding
+`equal-timestamps-order` in the model. -/
+theorem merge_ties_depend_on_inputs :
+    mergeStream (fun (a b : Nat × Nat) => decide (a.1 ≤ b.1)) [[[(1, 10)]], [[(1, 20)]]]
+      ≠ mergeStream (fun (a b : Nat × Nat) => decide (a.1 ≤ b.1)) [[[(1, 20)]], [[(1, 10)]]] := by
+  decide
+
+example :
+    mergeStream (fun (a b : Nat) => decide (a ≤ b)) [[[1, 4], [], [7, 9]], [[2, 3, 8]], [[]], [[5], [6, 10]]]
+      = [1, 2, 3, 4, 5, 6, 7, 8, 9, 10] := by decide
+
+example :
+    mergeStream (fun (a b : Nat) => decide (a ≤ b)) [[[1], [4], [7], [9]], [[2], [3, 8]], [[5, 6, 10]]]
+      = [1, 2, 3, 4, 5, 6, 7, 8, 9, 10] := by decide
+
 end OG.C08
